@@ -43,6 +43,12 @@ type Run struct {
 	fsCalls   []Value
 	gorPanic  any
 	gwritten  map[*ssa.Global]bool
+	cancelCtx *ctxObj
+	cancelAt  int
+	cliVals   map[string]Value
+	cliCalls  StrV
+	cliOut    StrV
+	cliLibFailed, cliRunFailed bool
 	ctxLabel  string
 	symbols   []*Term // every fresh symbol created on this path, in creation order
 	observed  []obs
@@ -420,6 +426,16 @@ func (e *Engine) registerIntrinsics() {
 			}
 		}
 		if !ok {
+			if !row.hasAtom() {
+				// a row made of bytes only (literal blank rows, byte-level harness rows): the real parser runs
+				m := r.eng.prog.LookupMethod(types.NewPointer(r.eng.prog.ImportedPackage(M).Type("Parser").Type()), nil, "Parse")
+				r.eng.noteFunc(m.String())
+				f2 := &frame{run: r, fn: m, env: make(map[ssa.Value]Value)}
+				for i, p := range m.Params {
+					f2.env[p] = a[i]
+				}
+				return f2.exec()
+			}
 			panic(unsupported("Parse stub: row without ghost: %s", describe(row)))
 		}
 		mpkg := r.eng.prog.ImportedPackage(M)
@@ -486,6 +502,10 @@ func (e *Engine) registerIntrinsics() {
 	}
 	in["fmt.Fprint"] = func(r *Run, fr *frame, a []Value) Value {
 		w := a[0].(Iface)
+		if fileNameOf(w) != "other" && fileNameOf(w) != "?" && fileNameOf(w) != "nil" {
+			// a standard stream (C16 harnesses): the text is not inspected
+			return Tuple{IntV{}, Iface{}}
+		}
 		s := StrV{}
 		for _, e := range a[1].(SliceV).Data {
 			sv, ok := e.(Iface).V.(StrV)
